@@ -77,14 +77,37 @@ func (w *vzWorld) byzActions() []vsimcore.Action {
 	t1 := targets[s.Choose("byz-t1", len(targets))]
 	t2 := targets[s.Choose("byz-t2", len(targets))]
 	var aud1, aud2 []int
-	for i := 0; i < w.cfg.nVal; i++ {
-		if i == b {
-			continue
+	if len(targets) > 2 && s.Pct("byz-victim", 40) {
+		// a targeted split: one correct node (the same one throughout the run) is told that the Byzantine
+		// validator voted for a real proposal, everybody else that it voted nil (or for another proposal)
+		if w.byzVictim < 0 {
+			w.byzVictim = s.Choose("byz-victim-node", w.cfg.nVal-w.cfg.nByz)
 		}
-		if s.Pct("byz-aud", 50) {
-			aud1 = append(aud1, i)
-		} else {
-			aud2 = append(aud2, i)
+		t1 = targets[2+s.Choose("byz-victim-target", len(targets)-2)]
+		if t2 == t1 {
+			t2 = ""
+		}
+		for i := 0; i < w.cfg.nVal; i++ {
+			if i == b {
+				continue
+			}
+			if i == w.byzVictim {
+				aud1 = append(aud1, i)
+			} else {
+				aud2 = append(aud2, i)
+			}
+		}
+		s.Probe("byzantine_split_aimed_at_one_node")
+	} else {
+		for i := 0; i < w.cfg.nVal; i++ {
+			if i == b {
+				continue
+			}
+			if s.Pct("byz-aud", 50) {
+				aud1 = append(aud1, i)
+			} else {
+				aud2 = append(aud2, i)
+			}
 		}
 	}
 	mk := func(target string) tmcodec.ConsensusMessage {
